@@ -50,3 +50,13 @@ func vReset(script []int64) {
 	vReached = nil
 	vExhausted = 0
 }
+
+// Native meaning of the number contract: the real conversion.
+func vNumValue(lit []byte) float64 {
+	f, _, _ := ReadFloat64(lit)
+	return f
+}
+func vNumOverflows(lit []byte) bool {
+	_, _, err := ReadFloat64(lit)
+	return err != nil
+}
